@@ -132,6 +132,7 @@ type pfFun struct {
 	deps   []*pfFun
 	done   bool
 	busy   bool
+	errSites map[token.Pos]int
 }
 
 type pfEnv map[types.Object]string
@@ -240,6 +241,19 @@ func pfTuple(names []string) (pat, expr string) {
 	}
 	s := "(" + strings.Join(names, ", ") + ")"
 	return "'" + s, s
+}
+
+// pfSimpleAtom: an identifier or a numeral (no parentheses, no application)
+func pfSimpleAtom(v string) bool {
+	if v == "" {
+		return false
+	}
+	for _, r := range v {
+		if !(r == '_' || r >= '0' && r <= '9' || r >= 'a' && r <= 'z' || r >= 'A' && r <= 'Z') {
+			return false
+		}
+	}
+	return true
 }
 
 func pfZ(v *big.Int) string {
@@ -522,12 +536,61 @@ func (t *pfTr) input(key, base, kind string) string {
 	return n
 }
 
+// errCode: a non-nil error value.  Errors carry no arithmetic: the value is the 1-based number of the
+// error-producing expression among those of the function, in source order (what the hand models
+// use as Err 1, Err 2, ..), unless the spec maps its source text to a code.
 func (t *pfTr) errCode(e ast.Expr) string {
 	txt := t.src(e)
 	if c, ok := t.f.spec.errs[txt]; ok {
 		return strconv.Itoa(c)
 	}
+	if t.f.errSites == nil {
+		t.f.errSites = map[token.Pos]int{}
+		var sites []token.Pos
+		ast.Inspect(t.f.decl.Body, func(n ast.Node) bool {
+			ex, ok := n.(ast.Expr)
+			if !ok {
+				return true
+			}
+			if t.isErrSite(ex) {
+				sites = append(sites, ex.Pos())
+				return false
+			}
+			return true
+		})
+		sort.Slice(sites, func(i, j int) bool { return sites[i] < sites[j] })
+		for i, p := range sites {
+			t.f.errSites[p] = i + 1
+		}
+	}
+	if n, ok := t.f.errSites[e.Pos()]; ok {
+		return strconv.Itoa(n)
+	}
 	return "1"
+}
+
+// isErrSite: fmt.Errorf(..) / errors.New(..) / a package-level error variable
+func (t *pfTr) isErrSite(e ast.Expr) bool {
+	info := t.f.pkg.TypesInfo
+	switch x := e.(type) {
+	case *ast.CallExpr:
+		if sel, ok := x.Fun.(*ast.SelectorExpr); ok && info.Selections[sel] == nil {
+			if f, ok := info.Uses[sel.Sel].(*types.Func); ok && f.Pkg() != nil {
+				return f.Pkg().Path() == "fmt" && f.Name() == "Errorf" || f.Pkg().Path() == "errors" && f.Name() == "New"
+			}
+		}
+	case *ast.SelectorExpr:
+		if info.Selections[x] == nil {
+			if v, ok := info.Uses[x.Sel].(*types.Var); ok && v.Pkg() != nil && v.Parent() == v.Pkg().Scope() {
+				return pfKind(v.Type()) == "err"
+			}
+		}
+	case *ast.Ident:
+		if v, ok := info.Uses[x].(*types.Var); ok && !v.IsField() && v.Pkg() != nil && v.Parent() == v.Pkg().Scope() {
+			return pfKind(v.Type()) == "err"
+		}
+	}
+	return false
 }
 
 func (t *pfTr) unary(x *ast.UnaryExpr, en pfEnv, hint string, k func(string) string) string {
@@ -741,6 +804,13 @@ func (t *pfTr) call(x *ast.CallExpr, en pfEnv, hint string, k func([]string) str
 			return t.expr(recv, en, "", func(r string) string {
 				return t.exprs(x.Args, en, func(as []string) string {
 					all := append([]string{r}, as...)
+					if name == "IsNil" && len(as) == 0 {
+						// the translator tracks nil-ness statically (a declared-but-unassigned Int/Dec)
+						if r == pfNil {
+							return one("true")
+						}
+						return one("false")
+					}
 					for _, a := range all {
 						if a == pfNil {
 							// method call on / with a nil Int or Dec: nil *big.Int dereference
@@ -816,6 +886,16 @@ func (t *pfTr) named(x *ast.CallExpr, full string, recv ast.Expr, en pfEnv, hint
 				}
 			}
 			return t.unrec(x, "NewDecWithPrec with a non-constant or out-of-range precision")
+		case "NewIntWithDecimal":
+			// n * 10^dec (int.go:137); panics when dec < 0 or the result exceeds 256 bits
+			if len(x.Args) == 2 {
+				n, ok1 := t.constOf(x.Args[0])
+				d, ok2 := t.constOf(x.Args[1])
+				if dv, err := strconv.Atoi(d); ok1 && ok2 && err == nil && dv >= 0 && dv <= 58 && len(n) <= 18 {
+					return one("(" + n + " * 10 ^ " + d + ")")
+				}
+			}
+			return t.unrec(x, "NewIntWithDecimal with non-constant or large arguments")
 		case "LegacyMustNewDecFromStr", "MustNewDecFromStr":
 			if len(x.Args) == 1 {
 				if tv, ok := t.pkg.TypesInfo.Types[x.Args[0]]; ok && tv.Value != nil && tv.Value.Kind() == constant.String {
@@ -1268,6 +1348,11 @@ func (t *pfTr) bindAll(at ast.Node, lhs []*ast.Ident, rhs []ast.Expr, en pfEnv, 
 			}
 			// reuse the binder the last operation introduced when it was named after this variable
 			if t.adopt(v, id.Name) {
+				e2 = e2.with(o, v)
+				continue
+			}
+			if pfSimpleAtom(v) {
+				// x := y / x := 0: the variable is the value itself (SSA), no let
 				e2 = e2.with(o, v)
 				continue
 			}
